@@ -684,10 +684,8 @@ class Ev:
                 return cv.fn if isinstance(cv, StaticV) else cv
         if isinstance(v, bool) and name in ("any", "all", "item"):
             return BoundLib("identity_method", v)
-        if isinstance(v, ArrV) and name in ("any", "all") and not v.batch and all(is_sym(c) and c.is_number for c in list(v.cells.values()) + [v.fill]):
-            # a small array of plain numbers: any() / all() of their truth values
-            vals = [v.get(key) for key in itertools.product(*[range(d) for d in v.shape])]
-            return BoundLib("identity_method", (any if name == "any" else all)(c != 0 for c in vals))
+        if isinstance(v, ArrV) and name in ("any", "all", "argmax", "argmin") and not v.batch and all(is_sym(c) and c.is_number for c in list(v.cells.values()) + [v.fill]):
+            return BoundLib(f"numarr.{name}", v)        # a small array of plain numbers: reduced exactly, along an axis if one is given
         if is_sym(v) and name == "free_symbols" and getattr(self, "sympy_objects", False):
             t = Tup(sorted(v.free_symbols, key=str), "set")
             return t
@@ -3373,6 +3371,34 @@ def lib_option_context(ev, a, k, n, mod):
     return Opaque("pandas.option_context(display options)")
 
 
+def lib_numarr_reduce(name):
+    """any / all / argmax / argmin of a small array of plain numbers (axis=None: over all entries; axis=k: along that axis)"""
+    def f(ev, a, k, n, mod):
+        x = a[0]
+        axis = k.get("axis", a[1] if len(a) > 1 else None)
+        def red(vals):
+            if name == "any":
+                return any(c != 0 for c in vals)
+            if name == "all":
+                return all(c != 0 for c in vals)
+            best = (max if name == "argmax" else min)(vals)
+            return sp.Integer(vals.index(best))
+        if axis is None:
+            return red([x.get(key) for key in itertools.product(*[range(d) for d in x.shape])])
+        ax = _const_int(axis) % len(x.shape)
+        rest = [d for i_, d in enumerate(x.shape) if i_ != ax]
+        out = ArrV(0, tuple(rest))
+        for key in itertools.product(*[range(d) for d in rest]):
+            lane = [x.get(key[:ax] + (j,) + key[ax:]) for j in range(x.shape[ax])]
+            r = red(lane)
+            out.cells[key] = (sp.true if r else sp.false) if isinstance(r, bool) else r
+        if name in ("any", "all"):
+            out.is_cond = True
+        return out
+    f.kw = {"axis"}
+    return f
+
+
 def lib_id(ev, a, k, n, mod):
     """id(x): the address of the object - a value of which only 'same object, same address' is known"""
     return OpaqueToken("id", a[0])
@@ -3442,6 +3468,7 @@ LIB = {
     "len": lib_len, "range": lib_range, "tuple": lib_tuple, "list": lib_list, "sorted": lib_sorted,
     "zip": lib_zip, "itertools.product": lib_product, "itertools.permutations": lib_permutations,
     "set": lib_set, "int": lib_int, "float": lib_float, "str": lib_str, "repr": lib_repr, "sum": lib_sum, "id": lib_id, "vars": lib_vars,
+    "numarr.any": lib_numarr_reduce("any"), "numarr.all": lib_numarr_reduce("all"), "numarr.argmax": lib_numarr_reduce("argmax"), "numarr.argmin": lib_numarr_reduce("argmin"),
     "vars.setdefault": lib_vars_setdefault, "vars.get": lib_vars_get, "numpy.shape": lib_np_shape, "pandas.option_context": lib_option_context,
     "isinstance": lib_isinstance,
     "pint.Quantity": lib_quantity, "pint.Quantity.to": lib_qty_to,
